@@ -38,6 +38,7 @@ type NEvent struct {
 	Ds  int     `json:"ds"`
 	Dd  int     `json:"dd"`
 	P   int     `json:"p"`
+	Uo  int     `json:"uo"`
 	B   int     `json:"b"`
 	H   int     `json:"h"`
 	L   int     `json:"l"`
@@ -233,6 +234,30 @@ func convertSlice[S, D signal.SignalTypes](conv func(*signal.Buffer[S], *signal.
 	return out
 }
 
+// shuffledBlocks converts xs in random order through many small buffers (2..9 samples, 1..3 channels), so that
+// a sample's result cannot depend on what else is in the buffer or where it sits; emits unordered points.
+func shuffledBlocks[S, D signal.SignalTypes](rng *rand.Rand, conv func(*signal.Buffer[S], *signal.Buffer[D]) int, xs []S, max int, emit func(x S, y D)) {
+	idx := rng.Perm(len(xs))
+	if len(idx) > max {
+		idx = idx[:max]
+	}
+	for len(idx) > 0 {
+		n := 2 + rng.Intn(8)
+		if n > len(idx) {
+			n = len(idx)
+		}
+		in := make([]S, n)
+		for i := range in {
+			in[i] = xs[idx[i]]
+		}
+		ys := convertSlice(conv, in)
+		for i := range in {
+			emit(in[i], ys[i])
+		}
+		idx = idx[n:]
+	}
+}
+
 // intValues: the source values a quick sweep visits, in increasing order (exhaustive for 8-bit types).
 func intValues[T constraints.Integer](rng *rand.Rand, nrand int) []T {
 	bits := bitsOf[T]()
@@ -308,6 +333,7 @@ func quantSweep[S, D constraints.Integer](w *numWriter, rng *rand.Rand, fn, sty,
 	w.start(&NEvent{Fam: "quant", Fn: fn, STy: sty, DTy: dty, Ss: b2i(isSigned[S]()), Sd: sd, Ds: b2i(isSigned[D]()), Dd: dd})
 	if sd == 16 || (exhaustive && sd == 32) {
 		quantExhaustive(w, conv, back)
+		quantShuffled(w, rng, fn, sty, dty, conv, intValues[S](rng, nrand))
 		return
 	}
 	xs := intValues[S](rng, nrand)
@@ -321,6 +347,12 @@ func quantSweep[S, D constraints.Integer](w *numWriter, rng *rand.Rand, fn, sty,
 			w.emit(&NEvent{Op: "RT", X: numOfInt(xs[i]), Y: numOfInt(ys[i]), Z: numOfInt(zs[i])})
 		}
 	}
+	quantShuffled(w, rng, fn, sty, dty, conv, xs)
+}
+
+func quantShuffled[S, D constraints.Integer](w *numWriter, rng *rand.Rand, fn, sty, dty string, conv func(*signal.Buffer[S], *signal.Buffer[D]) int, xs []S) {
+	w.start(&NEvent{Fam: "quant", Fn: fn, STy: sty, DTy: dty, Ss: b2i(isSigned[S]()), Sd: bitsOf[S](), Ds: b2i(isSigned[D]()), Dd: bitsOf[D](), Uo: 1})
+	shuffledBlocks(rng, conv, xs, 300, func(x S, y D) { w.emit(&NEvent{Op: "P", X: numOfInt(x), Y: numOfInt(y)}) })
 }
 
 // ordered image of an integer value in uint64 (order preserving for one type)
